@@ -246,16 +246,30 @@ def correspondence(ctx):
 
 # ---- oracle ---------------------------------------------------------------------------------------------
 def shrink_string(s, fails):
-    """delete characters / shorten symbols while the oracle still reports a violation"""
+    """delta debugging on the characters: delete windows of decreasing size, then rename symbols to single letters"""
     cur = s
-    changed = True
-    while changed:
-        changed = False
-        for i in range(len(cur)):
-            cand = cur[:i] + cur[i + 1:]
-            if cand and fails(cand):
-                cur, changed = cand, True
-                break
+    size = max(1, len(cur) // 2)
+    while size >= 1:
+        changed = True
+        while changed:
+            changed = False
+            i = 0
+            while i + size <= len(cur):
+                cand = cur[:i] + cur[i + size:]
+                if cand and fails(cand):
+                    cur, changed = cand, True
+                else:
+                    i += 1
+        size //= 2
+    # shorter symbols
+    syms = sorted(set(re.findall(r"[a-zA-Z]+", cur)), key=len, reverse=True)
+    fresh = [c for c in "abcxyz" if c not in syms]
+    for sym in syms:
+        if len(sym) > 1 and fresh:
+            cand = re.sub(r"(?<![a-zA-Z]){}(?![a-zA-Z])".format(sym), fresh[0], cur)
+            if cand != cur and fails(cand):
+                cur = cand
+                fresh.pop(0)
     return cur
 
 
@@ -279,7 +293,7 @@ def search(ctx, suspects, budget):
         if U.judge(s):
             report(s)
     # exhaustive small scope: the oracle is total (sentence <-> must be accepted with the conventional meaning)
-    max_len = 4 if ctx.quick else 5
+    max_len = 5 if (budget >= 20 or not ctx.quick) else 4
     for L in range(0, max_len + 1):
         for w in itertools.product(U.EXH_ALPHABET, repeat=L):
             s = "".join(w)
